@@ -22,6 +22,8 @@ package registry
 //@   requires process != nil
 //@   invokes process -- called for every entry while registryLk is read-held: what it may acquire is each caller's obligation
 //@   loop 0 invariant [all-entries] true
+//@   loop 0 step [each-processed] calls(dyn.func) == 1 && ret(dyn.func, 0) == nil
+//@   ensures [first-failure-stops] (result != nil) == (calls(dyn.func) >= 1 && ret_last(dyn.func, 0) != nil) && (result != nil ==> result == ret_last(dyn.func, 0))
 
 //@ func registry.NewRegistry {C04,C20}
 //@   constructor
